@@ -123,6 +123,38 @@ def leaves_ok(t, problems, seen=None):
     problems.append('an unexpected term %s' % show(t)[:60])
 
 
+def _range_of(t):
+    if isinstance(t, tuple) and t and t[0] == 'tup' and len(t[1]) == 2 and t[1][1][0] == 'ctor' and t[1][1][2] == 'Range':
+        return t[1][1]
+    return None
+
+
+def range_pushes(w):
+    """[(event, range term)] for what publishes a function's byte range: `(function id, start..end)` pushed onto a vector,
+    or a sequence of such pairs appended with `extend` (the vector is cx.code_transform.function_ranges itself, or a local
+    that ends up there)"""
+    out = []
+    for e in w.trace:
+        if e['kind'] != 'call' or len(e['args']) != 2:
+            continue
+        if e['callee'].endswith('Vec::push'):
+            r = _range_of(e['args'][1])
+        elif e['callee'].endswith('::extend') and e['args'][1][0] == 'seq':
+            r = _range_of(e['args'][1][2])
+        else:
+            r = None
+        if r is not None:
+            out.append((e, r))
+    return out
+
+
+def cursor_updates(w, rngs):
+    """updates of the running offset: the loop variables that the published range starts are computed from"""
+    starts = ' '.join(show(cfield(r, 'start')) for _, r in rngs)
+    return [e for e in w.trace if e['kind'] == 'loop_update' and
+            ('offset' in e['callee'] or (starts and show(e['args'][0]) in starts))]
+
+
 def provenance(F, res):
     """(b)+(e) on one evaluation of the code-section emitter with the helpers next to it looked through: what is
     published (instruction_map inserts, function_ranges, code_section_start, the running cursor) and from what."""
@@ -187,8 +219,8 @@ def provenance(F, res):
         if w.outcome != 'return':
             continue
         raws = [e for e in w.trace if e['kind'] == 'call' and e['callee'].endswith('CodeSection::raw')]
-        rngs = [e for e in w.trace if e['kind'] == 'call' and e['callee'].endswith('Vec::push') and 'function_ranges' in show(e['args'][0])]
-        curs = [e for e in w.trace if e['kind'] == 'loop_update' and 'offset' in e['callee']]
+        rngs = range_pushes(w)
+        curs = cursor_updates(w, rngs)
         if raws and (not rngs or not curs):
             at = [show(k[1])[:70] for k, v in w.assumptions if isinstance(k, tuple) and k and k[0] == 'atom']
             uncounted = at[-2:]
@@ -205,13 +237,11 @@ def provenance(F, res):
     for e in w.trace:
         if e['kind'] == 'store' and e['callee'].endswith('code_section_start'):
             items.append(('code_section_start', e['args'][1]))
-        if e['kind'] == 'call' and e['callee'].endswith('Vec::push') and 'function_ranges' in show(e['args'][0]):
-            r = e['args'][1]
-            rng = r[1][1] if r[0] == 'tup' else None
-            if rng is not None and rng[0] == 'ctor':
+        for e2, rng in range_pushes(w):
+            if e2 is e:
                 items.append(('function_ranges.start', cfield(rng, 'start')))
                 items.append(('function_ranges.end', cfield(rng, 'end')))
-        if e['kind'] == 'loop_update' and 'offset' in e['callee']:
+        if e in cursor_updates(w, range_pushes(w)):
             items.append(('running cursor ' + e['callee'], e['args'][1]))
     names = set(n.split(' ')[0] for n, _ in items)
     need = {'instruction', 'code_section_start', 'function_ranges.start', 'function_ranges.end'}
